@@ -204,10 +204,36 @@ def run(ctx: Ctx):
         f = M.functions.get(qn)
         if f is None:
             continue
-        for cs in p.all_calls(f):
-            if cs.external and any(cs.external == n or (n.endswith(".") and cs.external.startswith(n)) for n in NONDET):
-                ctx.bad("R-C06-6", f, cs.node, f"{cs.external} is reachable from a gamma computation ({' -> '.join(path[-3:])}): its value differs between runs / processes "
-                        f"(object addresses, PYTHONHASHSEED, clock)", key=f"nondet:{cs.external}")
+        nd_calls = [cs for cs in p.all_calls(f) if cs.external and any(cs.external == n or (n.endswith(".") and cs.external.startswith(n)) for n in NONDET)]
+        if not nd_calls or isinstance(f.node, ast.Lambda):
+            continue
+        # a clock / address / hash that is only reported (a duration in a log line) does not reach the computation: follow the value through the
+        # locals it is assigned to; every use must be an argument of a logging / warning / print call or another such local
+        nd_ids = {id(cs.node) for cs in nd_calls}
+        report_args = {id(x) for c in walk_no_nested(f.node) if isinstance(c, ast.Call) and (norm(c.func).split(".")[0] in ("logging", "logger", "log", "warnings", "LOGGER") or
+                                                                                             norm(c.func) == "print") for a in list(c.args) + [k.value for k in c.keywords] for x in ast.walk(a)}
+        tainted: set = set()
+        changed = True
+        while changed:
+            changed = False
+            for st in walk_no_nested(f.node):
+                if isinstance(st, (ast.Assign, ast.AugAssign)) and all(isinstance(t, ast.Name) for t in (st.targets if isinstance(st, ast.Assign) else [st.target])):
+                    if any(id(x) in nd_ids or (isinstance(x, ast.Name) and x.id in tainted and isinstance(x.ctx, ast.Load)) for x in ast.walk(st.value)):
+                        for t in (st.targets if isinstance(st, ast.Assign) else [st.target]):
+                            if t.id not in tainted:
+                                tainted.add(t.id)
+                                changed = True
+        local_defs = {id(x) for st in walk_no_nested(f.node) if isinstance(st, (ast.Assign, ast.AugAssign)) and
+                      all(isinstance(t, ast.Name) for t in (st.targets if isinstance(st, ast.Assign) else [st.target])) for x in ast.walk(st.value)}
+        params_or_captured = tainted & (set(f.params) | {n_ for g in f.nested for n_ in [x.id for x in ast.walk(g.node) if isinstance(x, ast.Name)]})
+        escapes = [x for x in walk_no_nested(f.node) if ((isinstance(x, ast.Name) and x.id in tainted and isinstance(x.ctx, ast.Load)) or id(x) in nd_ids) and
+                   id(x) not in report_args and id(x) not in local_defs]
+        for cs in nd_calls:
+            ok_ = not escapes and not params_or_captured
+            ctx.check(ok_, "R-C06-6", f, cs.node, f"{cs.external}() is only reported (log / warning / print arguments), it does not reach the computation",
+                      bad_detail=f"{cs.external} is reachable from a gamma computation ({' -> '.join(path[-3:])}): its value differs between runs / processes "
+                                 f"(object addresses, PYTHONHASHSEED, clock)" + (f" and is used at line {getattr(escapes[0], 'lineno', '?')} outside a report" if escapes else ""),
+                      key=f"nondet:{cs.external}")
     ctx.ok("R-C06-6", None, None, f"{len(p.reachable(roots))} reachable functions swept for set iteration",
            construct="(sweep)")
     # the machine's core count may size the pool and nothing else: a value derived from it that reaches the computation (batch sizes,
